@@ -729,7 +729,11 @@ func runJSON(c runCfg, prop string) error {
 				}
 			} else if len(f) == 3 && f[1] == "ju" {
 				var out string
-				if err := json.Unmarshal([]byte(dialect.UnHx(f[2])), &out); err != nil {
+				in := dialect.UnHx(f[2])
+				if strings.TrimSpace(in) != in {
+					// (white space around a value is the business of encoding/json's value scanner, not of the string literal)
+					impl[i] = "impl=ERR"
+				} else if err := json.Unmarshal([]byte(in), &out); err != nil {
 					impl[i] = "impl=ERR"
 				} else {
 					impl[i] = "impl=ok:" + dialect.Hx(out)
